@@ -207,6 +207,11 @@ class Orders:
                 for c in self.prog.expr_types(base.value, fi):
                     if (c, base.attr) in DECL_FIELDS:
                         return ('DECL',)
+                # an entry of a dictionary field that some function fills (a memo): what is stored there
+                for c in self.prog.expr_types(base.value, fi):
+                    if self.prog.has_cls(c) and any((c2, f2, k2) == (c, base.attr, 'item-assign') for fi2 in self.prog.functions() if fi2.outer is None
+                                                    for c2, f2, k2, n2 in self.prog.direct_writes(fi2)):
+                        return self.stored_values(c, base.attr)
             return ('UNK', q.unparse(e))
         if isinstance(e, ast.Attribute):
             for c in self.prog.expr_types(e.value, fi):
@@ -220,6 +225,28 @@ class Orders:
                     m = self.prog.lookup(self.prog.cls(c), e.attr)
                     if m is not None and m.is_property:
                         return self.summary(m)
+            # a field that holds a memoised sequence: what the (non-constructor) assignments store in it
+            for c in self.prog.expr_types(e.value, fi):
+                if not self.prog.has_cls(c):
+                    continue
+                memo = self.__dict__.setdefault('_assigned', {})
+                if (c, e.attr) in memo:
+                    return memo[(c, e.attr)]
+                memo[(c, e.attr)] = ('ONE',)
+                tags = []
+                for fi2 in self.prog.functions():
+                    if fi2.outer is not None or fi2.name == '__init__':
+                        continue
+                    for c2, f2, k2, n2 in self.prog.direct_writes(fi2):
+                        if (c2, f2, k2) == (c, e.attr, 'assign') and isinstance(n2, ast.Assign) and not (isinstance(n2.value, ast.Constant) and n2.value.value is None):
+                            env2 = self.flow(fi2, fi2.node, upto=n2)
+                            tags.append(self.tag(n2.value, env2, fi2, fi2.node))
+                if tags:
+                    bad = [t for t in tags if not deterministic(t)]
+                    res = bad[0] if bad else tags[0]
+                    memo[(c, e.attr)] = res
+                    return res
+                del memo[(c, e.attr)]
             return ('UNK', q.unparse(e))
         if isinstance(e, (ast.ListComp, ast.GeneratorExp)):
             if len(e.generators) == 1:
@@ -252,13 +279,15 @@ class Orders:
                     return self.tag(f.value, env, fi, fnode)
                 if f.attr in ('intersection', 'union', 'difference', 'symmetric_difference'):
                     return ('HASH',)
-                if f.attr == 'get' and len(e.args) == 2:
+                if f.attr == 'get' and len(e.args) in (1, 2):
                     # dict.get(k, default): stored values or the default
                     base = strip_cast(f.value)
                     stored = ('UNK', q.unparse(base))
                     if isinstance(base, ast.Attribute):
                         for c in self.prog.expr_types(base.value, fi):
                             stored = self.stored_values(c, base.attr)
+                    if len(e.args) == 1 or isinstance(e.args[1], ast.Constant) and e.args[1].value is None:
+                        return stored           # (None is no sequence: the caller tests for it and builds the value itself)
                     d = self.tag(e.args[1], env, fi, fnode)
                     return stored if not deterministic(stored) else d if not deterministic(d) else ('ALT', stored, d) if False else stored if stored[0] != 'ONE' else d
             targets, ext, ok = self.prog.resolve_call(e, fi)
@@ -271,6 +300,20 @@ class Orders:
 
     def stored_values(self, cls, field):
         """Order tag of the list values stored into dict field cls.field anywhere in the program."""
+        tags = []
+        memo = self.__dict__.setdefault('_stored', {})
+        if (cls, field) in memo:
+            return memo[(cls, field)]
+        memo[(cls, field)] = ('ONE',)      # (a memoising query reads the field it fills: what it finds there is what it stored, judged below)
+        try:
+            res = self._stored_values(cls, field)
+        except BaseException:
+            memo.pop((cls, field), None)
+            raise
+        memo[(cls, field)] = res
+        return res
+
+    def _stored_values(self, cls, field):
         tags = []
         for fi in self.prog.functions():
             if fi.outer is not None:
